@@ -1,6 +1,6 @@
 """Spec term language with symbolic differentiation (C11, C12).
 
-The five rules below (sum, product, quotient, chain, constant-exponent power) are the *definition* of
+The rules below (sum, product, quotient, chain — also through sqrt and through an abstract function —, constant-exponent power) are the *definition* of
 "derivative" for the contracts and are part of the trusted base; the thorough tier validates them
 against central differences.  Terms evaluate through a backend `M` with `add/sub/mul/div/pow/sqrt`
 so the same spec is used symbolically (pyvc.sv) and concretely (replay, floats).
@@ -80,6 +80,13 @@ class Sqrt(E):
         self.a = a
 
 
+class Fn(E):
+    """k-th derivative of an abstract (unspecified, sufficiently smooth) function `name` of one argument, at a.
+    Chain rule: d/dx name^(k)(a) = name^(k+1)(a) * da/dx.  Evaluation: env[name](k, value of a)."""
+    def __init__(self, name, a, k=0):
+        self.name, self.a, self.k = name, a, k
+
+
 def depends(e, x):
     if isinstance(e, Const):
         return False
@@ -89,7 +96,7 @@ def depends(e, x):
         return depends(e.a, x) or depends(e.b, x)
     if isinstance(e, Pow):
         return depends(e.a, x) or depends(e.e, x)
-    if isinstance(e, Sqrt):
+    if isinstance(e, (Sqrt, Fn)):
         return depends(e.a, x)
     raise TypeError(e)
 
@@ -112,6 +119,8 @@ def D(e, x):
         return Mul(Mul(e.e, Pow(e.a, Add(e.e, Const(-1)))), D(e.a, x))
     if isinstance(e, Sqrt):
         return Div(D(e.a, x), Mul(Const(2), Sqrt(e.a)))
+    if isinstance(e, Fn):
+        return Mul(Fn(e.name, e.a, e.k + 1), D(e.a, x))
     raise TypeError(e)
 
 
@@ -134,4 +143,6 @@ def ev(e, env, M):
         return M.power(ev(e.a, env, M), ev(e.e, env, M))
     if isinstance(e, Sqrt):
         return M.sqrt(ev(e.a, env, M))
+    if isinstance(e, Fn):
+        return env[e.name](e.k, ev(e.a, env, M))
     raise TypeError(e)
